@@ -198,6 +198,47 @@ pub fn cases(ctx: &Ctx) -> Vec<WCase> {
         }
         out.push(wcase(format!("burst-{i}"), s));
     }
+    // ---- slow handshakes: an outage that begins when the sessions are created and lasts up to several disconnect
+    // timeouts (the timeout only guards a RUNNING connection: "the handshake completes under any loss pattern that
+    // eventually lets packets through"), then the link is clean; afterwards the session must come up and run like its twin,
+    // without a Disconnected (added after round-6 seed C05)
+    for i in 0..ctx.n(900, 40_000) {
+        let mut rr = r.fork(0x5105_0000 + i as u64);
+        let topo = rr.below(5) as usize;
+        let mut s = base_cfg(topo.min(2), rr.range(0, 8) as usize, rr.below(5) as usize, rr.chance(0.4), rr.next());
+        if topo == 3 {
+            s.peers = vec![vec![0], vec![1], vec![2]];
+            s.specs.clear();
+        }
+        if topo == 4 {
+            s.peers = vec![vec![0, 1], vec![2]];
+            s.specs = vec![SpecCfg::new(1)];
+        }
+        s.link = Link { drop: rr.pick(&[0.0, 0.0, 0.02]), dup: rr.pick(&[0.0, 0.05]), base_ms: rr.pick(&[0u64, 5, 10, 30, 60]), jitter_ms: rr.pick(&[0u64, 3, 10]), outages: vec![], faults: vec![], stragglers: vec![] };
+        let links = links_of(&s);
+        let (a, b) = links[rr.below(links.len() as u64) as usize];
+        // around the notify delay (500 ms), around the disconnect timeout (2 s) and far beyond it
+        let len = rr.pick(&[300u64, 480, 520, 1000, 1900, 1980, 2020, 2100, 2500, 4000, 9000]) + rr.below(40);
+        // all packets, or only the handshake's own messages (requests / replies)
+        let mut kinds: u16 = rr.pick(&[0u16, 0, 1 << K_SYNC_REQ, 1 << K_SYNC_REP]);
+        // a host that completes its side of the handshake long before its spectator does streams frames the spectator is not
+        // ready for; after more than 60 of them the spectator's ring has been overrun (SpectatorTooFarBehind, the documented
+        // outcome that C06 covers). On host<->spectator links the outage is therefore total, so that both sides finish together.
+        let spec_link = a >= 100 || b >= 100;
+        if spec_link {
+            kinds = 0;
+        }
+        let mut l = s.link.clone();
+        l.outages.push(Outage { from_ms: 0, to_ms: len, kinds });
+        s.link_overrides.push((a, b, l));
+        if spec_link || rr.chance(0.5) {
+            let mut l2 = s.link.clone();
+            l2.outages.push(Outage { from_ms: 0, to_ms: len, kinds });
+            s.link_overrides.push((b, a, l2));
+        }
+        s.limit_ms = len + 5500;
+        out.push(wcase(format!("slowhs-{i}"), s));
+    }
     out
 }
 
@@ -336,7 +377,7 @@ pub fn check(ctx: &Ctx) -> i32 {
     );
     let meta = Meta {
         level: "fault_enumeration",
-        rule: "bounded-exhaustive placement of scripted faults (see enumerated_subspace) plus random burst outages (17 ms .. 1.7 s, i.e. below the default 2 s disconnect timeout minus 300 ms; <= 800 ms towards spectators because of the 60-frame ring), on one or both directions of a link, for all packets or one message kind only (InputAck only, Input only, everything but keep-alives, acks+quality), on player and host<->spectator links, windows 0..=8, delays 0..=4, sparse on/off, 3-peer meshes. Verdict per case: no Disconnected event, no panic; C01/C06 oracles keep holding; all sessions Running within 1.5 s (+ the twin's handshake time) after the last fault; over [T_heal+1.5 s, T_heal+3.5 s] every player and spectator advances at least half as many frames as in the fault-free twin run of the same scenario, minus 2. Non-trivial: at least one fault actually took effect and the progress window was judged. Distinct: fault schedule + configuration + observed trace.".into(),
+        rule: "bounded-exhaustive placement of scripted faults (see enumerated_subspace) plus random burst outages (17 ms .. 1.7 s, i.e. below the default 2 s disconnect timeout minus 300 ms; <= 800 ms towards spectators because of the 60-frame ring), on one or both directions of a link, for all packets or one message kind only (InputAck only, Input only, everything but keep-alives, acks+quality), on player and host<->spectator links, plus slow handshakes (an outage of 0.3 .. 9 s - below, around and far above the notify delay and the disconnect timeout - that begins at session creation, all packets or sync requests / replies only), windows 0..=8, delays 0..=4, sparse on/off, 3-peer meshes. Verdict per case: no Disconnected event, no panic; C01/C06 oracles keep holding; all sessions Running within 1.5 s (+ the twin's handshake time) after the last fault; over [T_heal+1.5 s, T_heal+3.5 s] every player and spectator advances at least half as many frames as in the fault-free twin run of the same scenario, minus 2. Non-trivial: at least one fault actually took effect and the progress window was judged. Distinct: fault schedule + configuration + observed trace.".into(),
         assumptions: {
             let mut a = std_assumptions();
             a.push("liveness restated as bounded progress in virtual time against a fault-free twin".into());
